@@ -249,10 +249,10 @@ impl Check for Units {
                     Ok(w) => w,
                     Err(e) => fail!(format!("same-category-rejected:{}->{}", a, b), "convert({:e}, {:?}, {:?}) failed: {}", v.0, a, b, e),
                 };
-                if a == b {
-                    let scale = v.0.abs().max(ua.convert_to_base(v.0).abs());
-                    if !close(w, v.0, temp, scale) {
-                        fail!(format!("identity:{}", a), "convert({:e}, {:?}, {:?}) = {:e}", v.0, a, a, w);
+                if a == b || same_unit(&ua, &ub) {
+                    // converting a unit to itself is the identity: the value comes back as it is
+                    if w.to_bits() != v.0.to_bits() {
+                        fail!(format!("identity:{}", a), "convert({:e}, {:?}, {:?}) = {:e}: not the value itself", v.0, a, b, w);
                     }
                     return Ok(());
                 }
